@@ -5,7 +5,7 @@ from lib import vf, srv
 
 ID = "C02"
 PROP_FILE = "Props/C02.v"
-CONSTS = ["chan_lines_cap", "chan_server_messages_cap"]
+CONSTS = ["chan_lines_cap", "chan_server_messages_cap", "truncated_cmp"]
 EXTRA_BINS = ("dcat", "dgrep")
 RULE = ("real ServerHandler sessions driven in-process by a paced consumer (the harness calls Read: fast, uniformly slow, one "
         "long stall placed after k reads) with 1-6 cat/grep commands, file sizes around 0,1,99,100,101,1000 selected lines, "
